@@ -363,6 +363,7 @@ int vf_world_fini(void) {
 	return alive;
 }
 
+int vf_free_running(void) { return 0; }
 uint64_t vf_now_us(void) { return now_us; }
 void vf_set_time_cap(uint64_t c) { time_cap = c; }
 void vf_set_fatal_handler(vf_fatal_fn f) { fatal_fn = f; }
